@@ -413,14 +413,21 @@ var pairKinds = []string{"compact-level", "compact-full", "backup", "snapshot", 
 
 func needsTSM(k string) bool { return strings.HasPrefix(k, "compact") }
 
-func pairScenarios() []Scenario {
+// pairScenarios: thorough = every unordered pair (self-pairs included) on every layout. quick = every pair
+// on the 1-TSM layout; on the other two layouts only the pairs of different operations that contain a
+// delete, a read or a close.
+func pairScenarios(thorough bool) []Scenario {
 	var out []Scenario
+	core := func(k string) bool { return k == "delete" || k == "read" || k == "close" }
 	for _, lay := range layouts {
 		for i, a := range pairKinds {
 			for j := i; j < len(pairKinds); j++ {
 				b := pairKinds[j]
 				if lay == "cache" && (needsTSM(a) || needsTSM(b)) {
 					continue // nothing to compact without a TSM file
+				}
+				if !thorough && lay != "tsm+cache" && (a == b || !(core(a) || core(b))) {
+					continue
 				}
 				if a == b {
 					switch a {
@@ -457,7 +464,7 @@ func tripleScenarios(thorough bool) []Scenario {
 			continue
 		}
 		for ti, ops := range tripleOps {
-			if !thorough && ti >= 5 {
+			if !thorough && ti >= 3 {
 				continue
 			}
 			skip := false
@@ -1319,7 +1326,7 @@ func TestCheck(t *testing.T) {
 			if c.Thorough() {
 				pb = 2
 			}
-			for _, sc := range pairScenarios() {
+			for _, sc := range pairScenarios(c.Thorough()) {
 				jobs = append(jobs, job{sc, pb, false})
 			}
 			for _, sc := range tripleScenarios(c.Thorough()) {
@@ -1330,7 +1337,7 @@ func TestCheck(t *testing.T) {
 					jobs = append(jobs, job{sc, 1, false})
 				}
 				// second pass: every pair again with the wide branching filter, 1 deviation
-				for _, sc := range pairScenarios() {
+				for _, sc := range pairScenarios(true) {
 					jobs = append(jobs, job{sc, 1, true})
 				}
 			}
